@@ -438,7 +438,9 @@ def _r6(ctx):
                     continue
                 # read with the private helpers the method was split into put back (pymodel.folded): a list built by a pipeline of
                 # helpers is the same list
-                fl = Flow(pkg.folded(ci.name, mname, keep=("_create_species",)) if mname in ("_parse_string", "__init__") else fn, f)
+                # (a helper called inside an expression -- `self._species_of(names) if names else []` -- is read as the value it returns)
+                fl = Flow(pkg.folded(ci.name, mname, keep=("_create_species",)) if mname in ("_parse_string", "__init__") else fn, f,
+                          resolver=lambda name, c_=ci.name: pkg.resolve(c_, name)[1] if name not in ("_create_species", "_parse_string", "__init__") else None)
                 for fact in fl.facts:
                     if fact.kind == "attrstore" and fact.target in ("reactants", "products", "_reactants", "_products") \
                             and fact.extra.get("obj") == ("param", "self"):
